@@ -481,6 +481,9 @@ func (e *c14Env) sortTarget(in *c14Scope, call *ast.CallExpr) string {
 				if kv, ok := el.(*ast.KeyValueExpr); ok {
 					val = kv.Value
 				}
+				if t := arg.with(val).term(); e.permTerms[t] {
+					return t // the wrapper carries an index permutation: that is what the sort permutes
+				}
 				if sl, ok := arg.sc.info.TypeOf(val).Underlying().(*types.Slice); ok && types.Identical(sl.Elem(), e.subT) {
 					if found != "" {
 						return ""
@@ -517,7 +520,11 @@ func c14ReordersArg(fn *types.Func) bool {
 }
 
 // judgeSort: does the call sort `slice` ascending by ZIndex?
-func (e *c14Env) judgeSort(at c14At, slice string) (string, string, token.Pos) {
+//
+// base != "": `slice` is an index permutation of the slice `base` (c14y.go): the elements
+// being ordered are base[slice[i]], base[slice[j]] for the positional forms and base[a],
+// base[b] for the element forms.
+func (e *c14Env) judgeSort(at c14At, slice, base string) (string, string, token.Pos) {
 	call := at.n.(*ast.CallExpr)
 	info := at.sc.info
 	fn := calleeOf(info, call)
@@ -539,11 +546,19 @@ func (e *c14Env) judgeSort(at c14At, slice string) (string, string, token.Pos) {
 		if strings.HasPrefix(full, "sort.") {
 			zA := fmt.Sprintf("%s[%p].%s", slice, ps[0], zf)
 			zB := fmt.Sprintf("%s[%p].%s", slice, ps[1], zf)
+			if base != "" {
+				zA = fmt.Sprintf("%s[%s[%p]].%s", base, slice, ps[0], zf)
+				zB = fmt.Sprintf("%s[%s[%p]].%s", base, slice, ps[1], zf)
+			}
 			st, why := c14JudgeOrder(fsc, body, zA, zB, true, "less(i,j)")
 			return st, why, body.Pos()
 		}
 		zA := fmt.Sprintf("%p.%s", ps[0], zf)
 		zB := fmt.Sprintf("%p.%s", ps[1], zf)
+		if base != "" {
+			zA = fmt.Sprintf("%s[%p].%s", base, ps[0], zf)
+			zB = fmt.Sprintf("%s[%p].%s", base, ps[1], zf)
+		}
 		st, why := c14JudgeOrder(fsc, body, zA, zB, false, "cmp(a,b)")
 		return st, why, body.Pos()
 	case "sort.Sort", "sort.Stable":
@@ -588,6 +603,10 @@ func (e *c14Env) judgeSort(at c14At, slice string) (string, string, token.Pos) {
 		}
 		zA := fmt.Sprintf("%s[%p].%s", slice, lessP[0], zf)
 		zB := fmt.Sprintf("%s[%p].%s", slice, lessP[1], zf)
+		if base != "" {
+			zA = fmt.Sprintf("%s[%s[%p]].%s", base, slice, lessP[0], zf)
+			zB = fmt.Sprintf("%s[%s[%p]].%s", base, slice, lessP[1], zf)
+		}
 		st, why := c14JudgeOrder(lessS, lessS.fd.Body, zA, zB, true, "Less(i,j)")
 		return st, why, lessS.fd.Pos()
 	}
